@@ -166,7 +166,7 @@ func (m *Module) Generate(cases []*space.Case) []*Built {
 // FinalizeCase fills in the identifiers that depend on the case id.
 func (m *Module) FinalizeCase(c *space.Case) {
 	c.File.Pkg = c.ID + c.ProtoPkgSuffix
-	c.File.Name = c.ID + ".proto"
+	c.File.Name = c.ProtoDir + c.ID + ".proto"
 	if c.Separate {
 		imp := m.modName() + "/cases/" + c.ID + "/" + structDir(c)
 		c.Cfg.TargetPkg = TFPkg(c)
